@@ -23,13 +23,17 @@ RULE = ("exhaustive: every non-empty set of distinct strict orders over m <= 3 a
         "single-peaked votes (Conitzer / Walsh style from a hidden axis) and random votes, arbitrary ids, multiplicities; "
         "planted profiles m <= 40, n <= 30 (axis through the verified checker only); large negatives = planted profile + "
         "noise with an embedded 3-4 alternative core refuted by the reference (sp_restrict). "
+        "On EVERY case the verdict is also compared with the mirror of the algorithm (op c03.elo, Model/ELO.v). "
         "non-trivial = >= 3 alternatives and >= 2 distinct orders")
 EXHAUSTIVE = {"quick": "all sets of distinct strict orders m<=3; all sets of <=3 orders m=4; both storage orders; all 2-voter "
                        "profiles m=4 under non-contiguous ids; all 2-voter profiles m=5 + common bottom",
               "thorough": "all sets of distinct strict orders m<=3; all sets of <=4 orders m=4; both storage orders"}
-TRUSTED = ["(R) not verified, compared with the verified reference sp_decide on bounded inputs and through the verified "
-           "axis checker at every size: is_single_peaked (Escoffier-Lang-Ozturk elimination); flatten_strict is "
-           "exercised through it"]
+TRUSTED = ["is_single_peaked (Escoffier-Lang-Ozturk) is MIRRORED statement by statement (Model/ELO.v) and the mirror is "
+           "proved terminating, error-free, sound and complete for every well-formed strict profile (elo_terminates, "
+           "elo_no_error, elo_sound, elo_complete, elo_correct); what is trusted is the correspondence itself: that the "
+           "Python function behaves like the mirror - checked on every case of every run (verdict equal at every size; "
+           "the returned axis is additionally sent through the verified checker and compared with the mirror's axis as a "
+           "statistic); flatten_strict is exercised through it"]
 ASSUMPTIONS = ["data_type = soc, every order ranks every alternative exactly once, >= 1 order, orders distinct "
                "(quantifier of C03)"]
 COVER_FILES = ['properties/subdomains/ordinal/singlepeaked/singlepeakedness.py']
